@@ -503,7 +503,16 @@ func (w *world) phase(st *Step) *PhaseObs {
 	wireBytes := out.Pending()
 	if st.HasEdit {
 		var edited []byte
+		otherHist := w.histBA
+		if !st.ASends {
+			otherHist = w.histAB
+		}
 		for _, e := range st.Edit {
+			if e.Kind == "refl" { // a frame of the OTHER direction handed to this receiver (reflection)
+				e.Kind = "gen"
+				edited = append(edited, w.materialize(otherHist, e)...)
+				continue
+			}
 			edited = append(edited, w.materialize(*hist, e)...)
 		}
 		out.Replace(edited)
@@ -513,8 +522,12 @@ func (w *world) phase(st *Step) *PhaseObs {
 	efs, rest := ParseFrames(wireBytes)
 	po.EditedFrames, po.EditRest = efs, len(rest)
 	if st.HasEdit {
+		otherHist := w.histBA
+		if !st.ASends {
+			otherHist = w.histAB
+		}
 		for _, f := range efs {
-			po.Edited = append(po.Edited, classify(*hist, f))
+			po.Edited = append(po.Edited, classify(*hist, otherHist, f))
 		}
 	}
 	for _, op := range st.ROps {
@@ -566,10 +579,15 @@ func (w *world) materialize(hist []RawFrame, e EditItem) []byte {
 // classify maps a frame of the edited stream to a symbolic eframe: a byte-exact
 // copy of the body of some frame of this direction's history (any header flag),
 // or raw bytes.
-func classify(hist []RawFrame, f RawFrame) string {
+func classify(hist, other []RawFrame, f RawFrame) string {
 	for j, h := range hist {
 		if len(h.Body) > 0 && bytes.Equal(h.Body, f.Body) {
 			return fmt.Sprintf("EGen %d %d", j, f.Flag)
+		}
+	}
+	for j, h := range other {
+		if len(h.Body) > 0 && bytes.Equal(h.Body, f.Body) {
+			return fmt.Sprintf("EOther %d %d", j, f.Flag)
 		}
 	}
 	b := f.Body
